@@ -53,6 +53,10 @@ type dataReader struct {
 
 	limited bool
 	n       int64 // Maximum bytes remaining
+
+	// connErr is the error that kept the connection from delivering the
+	// message up to its end marker, if any.
+	connErr error
 }
 
 func newDataReader(c *Conn) *dataReader {
@@ -102,6 +106,7 @@ func (r *dataReader) Read(b []byte) (n int, err error) {
 			if err == io.EOF {
 				err = io.ErrUnexpectedEOF
 			}
+			r.connErr = err
 			break
 		}
 		switch r.state {
